@@ -115,7 +115,7 @@ func init() {
 			// panic-freedom of the same functions is C04's claim (type assertions on constant values etc.)
 			return VerifyOpts{OnlyKinds: []string{"pre", "post", "frame", "inv-init", "inv-pres", "cover", "call"}}
 		},
-		Extra: func(e *Engine, tier string) []*FuncResult { return []*FuncResult{e.yamlCarriedResult()} },
+		Extra: func(e *Engine, tier string) []*FuncResult { return []*FuncResult{e.yamlCarriedResult(map[string]bool{"AsCompilerPass": true}, "c15")} },
 		Assumptions: []string{
 			"scope: the pass-specific callbacks (processObject / processRef / processSchema / Process) of the transformations listed in functions_under_contract; each contract states the documented effect on the selected object/field/reference and that everything else is returned or left as it was (value equality plus write frames)",
 			"the shared Visitor (internal/ast/compiler/visitor.go) that applies these callbacks is under contract from VisitType down (dispatch by kind, delegation to the registered callback, descent into nested types, results stored in place); VisitSchema / VisitSchemas (objects visited in order, registered objects appended, package / metadata / entry point carried over) and Passes.Process chaining are assumed",
@@ -127,15 +127,18 @@ func init() {
 	}
 	propSpecs["C17"] = &PropSpec{
 		ID:       "C17",
-		Patterns: []string{"./internal/ast", "./internal/orderedmap", "./internal/tools", "./internal/veneers/..."},
+		Patterns: []string{"./internal/ast", "./internal/orderedmap", "./internal/tools", "./internal/veneers/...", "./internal/yaml", "./internal/ast/compiler"},
 		Level:    "proof",
 		Prepare:  func(e *Engine) { e.assumeKindInv = true },
 		Funcs:    func(e *Engine) []string { return []string{"tools.StringInListEqualFold"} },
 		Opts: func(e *Engine, key string) VerifyOpts {
 			return VerifyOpts{OnlyKinds: []string{"pre", "post", "frame", "inv-init", "inv-pres", "cover", "call"}}
 		},
-		Extra: func(e *Engine, tier string) []*FuncResult { return []*FuncResult{e.mergeFlowResult()} },
+		Extra: func(e *Engine, tier string) []*FuncResult {
+			return []*FuncResult{e.mergeFlowResult(), e.yamlCarriedResult(map[string]bool{"AsRewriteRule": true, "AsSelector": true}, "c17")}
+		},
 		Assumptions: []string{
+			"configuration: every field of the YAML description of a builder / option rule or selector is read by its AsRewriteRule / AsSelector method (structural obligation over go/ssa, one per field)",
 			"merge_into / compose: ast.Path.Append is under contract (a fresh array holding receiver ++ suffix, nothing pre-existing written) and a def-use obligation generated from the SSA of mergeBuilderInto requires every path of a copied assignment to be built by underPath.Append(old path) and nothing else; the loops of mergeBuilderInto (which options are copied, renamed, excluded) are not under contract",
 			"scope: rule contracts of the builder rules omit / rename, the option actions rename / rename_arguments / omit / duplicate / add_comments / array_to_append / map_to_index / unfold_boolean and the by-name selectors: each states what comes back for a selected builder/option (including what is kept: arguments, assignments, target paths, defaults) and that non-applicable inputs come back unchanged",
 			"NOT covered by this check: the rewriter glue (Rewriter.ApplyTo / applyBuilderRules / applyOptionRules) that applies rules behind selectors, sequences of rules, path well-typedness after MakePath, and the remaining rules (duplicate builder, properties, initialize, promote_to_constructor, add_option, add_factory, struct_fields_as_*, disjunction_as_options, add_assignment; merge_into / compose only as far as the re-rooting of paths goes)",
